@@ -1561,9 +1561,20 @@ def rule_migmisc(text):
         apps.append(_app("R-fs", text, mm.start(), cl2 + 1, new, "shim: fs::hard_link with its error mapped to DestinationExists (AlreadyExists) or Io; never replaces an existing name"))
         text = text[:mm.start()] + new + text[cl2 + 1:]
     table = [
+        (r"if" + ws + r"let" + ws + r"Err\((\w+)\)" + ws + r"=" + ws + r"fs\s*::\s*hard_link\s*\(([^()]*)\)" + ws + r"\{", r"let link_res_ = fs_hard_link_raw(\2); if let Err(\1) = link_res_ {", "R-bindres",
+         "the scrutinee of an `if let` bound to a temporary first (same evaluation order), so that the outcome of the call can be named"),
+        (r"\bio::ErrorKind::", "IoErrorKind::", "R-handle", "opaque std::io error kinds"),
         (r"(FileStamp\s*::\s*read_regular\s*\([^()]*\)\s*\?)" + ws + r"\." + ws + r"as_ref\(\)" + ws + r"!=" + ws + r"Some\((\w+)\)", r"!stamp_is(&\1, \2)", "R-stampeq", "shim: comparison of an optional file stamp with the expected one"),
         (r"(\w+)" + ws + r"\." + ws + r"as_ref\(\)" + ws + r"==" + ws + r"Some\((\w+)\)", r"stamp_is(&\1, \2)", "R-stampeq", "shim: comparison of an optional file stamp with the expected one"),
         (r"fs\s*::\s*remove_file\s*\(", "fs_remove_file(", "R-fs", "shim: fs::remove_file"),
+        (r"(FileStamp::read(?:_store_file)?\([^()]*\)\?)" + ws + r"!=" + ws + r"(\w+)", r"stamp_ne(&\1, &\2)", "R-stampeq", "shim: comparison of two file stamps"),
+        (r"source\.format_version\b(?!\()", "source.format_version()", "R-opq", "field read of the opaque store"),
+        (r"verified\.format_version\b(?!\()", "verified.format_version()", "R-opq", "field read of the opaque store"),
+        (r"source\.device_size\.max\(layout\.required_size\)", "max_u64(source.device_size(), layout.required_size)", "R-arith", "definition of Ord::max on u64 (verified shim)"),
+        (r"source\.ambiguous_legacy_markers\b(?!\()", "source.ambiguous_legacy_markers()", "R-opq", "field read of the opaque store"),
+        (r"destination" + ws + r"\." + ws + r"device_file" + ws + r"\." + ws + r"as_ref\(\)" + ws + r"\." + ws + r"ok_or\(FeoxError::NoDevice\)\?" + ws + r"\." + ws + r"try_clone\(\)" + ws + r"\." + ws + r"map_err\(\|source\|" + ws + r"MigrationError::Io" + ws + r"\{[^}]*\}\)\?",
+         "destination.clone_device_file(&destination_guard.temporary)?", "R-fs", "shim: a second descriptor on the temporary destination file (errors mapped to NoDevice / Io)"),
+        (r"FeoxStore::with_config_for_migration_destination\(", "FeoxStore::with_config_for_migration_destination(", "R-ws", "unchanged"),
         (r"(\w+)\s*\.\s*as_deref\s*\(\s*\)", r"opt_as_slice(&\1)", "R-asderef", "shim: Option<Vec<u8>>::as_deref"),
         (r"let" + ws + r"Some\(last\)" + ws + r"=" + ws + r"records\.last\(\)" + ws + r"else" + ws + r"\{" + ws + r"break;" + ws + r"\};" + ws + r"after" + ws + r"=" + ws + r"Some\(last\.key\.clone\(\)\);",
          "if records.len() == 0 { break; } after = Some(vec_clone_u8(&records[records.len() - 1].key));", "R-last", "definition of slice::last with a diverging else, and of cloning the last key"),
